@@ -160,6 +160,10 @@ HS_FAMILY = ("hs", "hs_bucket", "hs_u", "hs_bucket_u")
 
 
 def classify(case, io, mo):
+    if case.get("expect_ok"):
+        # regression corpus: recorded as handled correctly by the unchanged tree under hash seeds 0-3
+        # (tools/okcorpus.py); a failure now is a regression whatever its shape
+        return None
     if case["enum"] == "bs" and isinstance(io, dict) and io.get("hang"):
         return "c12_bee_search_never_returns"
     if case["enum"] in ("hs_u", "hs_bucket_u") and "merges" in case and isinstance(io, dict) \
